@@ -210,9 +210,42 @@ def label_of(fn):
         return None
 
 
-def one_document(ctx, doc, fmts, scratch, fails, model_ops, pending, doc_id):
+def read_then_write(fmt_written, scratch):
+    """the smallest history in which an earlier read could spoil a later write: a fresh registry, an empty document written as
+    JSON to a file, prov.read() of that file without a format, then an empty document written as `fmt_written`.
+    Returns the exception of the last step (None when it works)."""
     Registry.load_serializers()
+    p = os.path.join(scratch, "registry-probe.json")
+    ProvDocument().serialize(p, format="json")
+    try:
+        prov.read(p)
+    except Exception:  # noqa
+        pass
+    try:
+        ProvDocument().serialize(format=fmt_written)
+    except Exception as e:  # noqa
+        return e
+    return None
+
+
+def one_document(ctx, doc, fmts, scratch, fails, model_ops, pending, doc_id):
+    if Registry.serializers is None:
+        Registry.load_serializers()       # once per process, as the library itself does: later calls must find it as it was
     order = list(Registry.serializers.keys())
+    # whatever was read or written before (earlier documents of this run), every format can still be written
+    for f in ("json", "xml", "rdf", "provn"):
+        try:
+            ProvDocument().serialize(format=f)
+        except Exception as e:  # noqa
+            again = read_then_write(f, scratch)
+            if again is not None:
+                fails.append(Failure("oracle", None, "after prov.read() of a JSON file without a format, an empty document can no longer be written "
+                                     "as %s: %r" % (f, again), {"recipe": "read-then-write", "fmt": f}))
+            else:
+                fails.append(Failure("oracle", None, "after the reads and writes of the previous documents an empty document can no longer be "
+                                     "written as %s: %r" % (f, e), {"fmt": f, "doc": doc_id, "history": "the documents of this run before %s" % (doc_id,)}))
+            Registry.load_serializers()
+            order = list(Registry.serializers.keys())
     for fmt in fmts:
         try:
             ref_text = doc.serialize(format=fmt)
@@ -461,6 +494,7 @@ def run(ctx, use_model=True):
                 # must not depend on where a block boundary falls
                 doc = io_document(g)
                 unit = g.choice(["€", "é", "🙂", "a€", "漢é"])
+                doc.add_namespace("ex", "http://example.org/")       # (the empty document of io_document has none yet)
                 doc.entity("ex:long%d" % i, {"ex:attr": unit * g.choice([2731, 4096, 8192, 10000, 21846]),
                                               "prov:label": ("x" * g.rng.randint(0, 3)) + unit * g.choice([3000, 8191, 16385])})
                 fmts = ["json", "xml", "rdf", "provn"]
@@ -493,6 +527,14 @@ def replay(ctx, case):
         sub = []
         run_locale_probe(ctx, sub)
         return [Failure(f.kind, case.get("signature"), f.desc, case) for f in sub]
+    if case.get("recipe") == "read-then-write":
+        scratch = tempfile.mkdtemp(prefix="c16-")
+        try:
+            e = read_then_write(case["fmt"], scratch)
+        finally:
+            shutil.rmtree(scratch, ignore_errors=True)
+            Registry.load_serializers()
+        return [Failure("oracle", case.get("signature"), "after a format-less prov.read(), writing %s raises %r" % (case["fmt"], e), case)] if e is not None else []
     g = Gen(case.get("seed", 1))
     doc = io_document(g)
     if not list(doc.bundles):
@@ -505,6 +547,8 @@ def replay(ctx, case):
         one_document(ctx, doc, [case["fmt"]], scratch, sub, [], [], "replay")
         for f in sub:
             c = f.replay
+            if c.get("recipe") or c.get("fmt") != case["fmt"]:
+                continue        # not this cell: found again, with its own replay, by the main run
             if all(c.get(k) == case[k] for k in ("dest", "src", "mode") if k in case):
                 fails.append(Failure(f.kind, case.get("signature") or f.sig, f.desc, case))
     finally:
